@@ -175,7 +175,7 @@ def run(ctx):
         ('distinct', 1, lambda t: etl.distinct(t, 'x')), ('distinct(count)', 1, lambda t: etl.distinct(t, 'x', count='n')),
         ('conflicts', 1, lambda t: etl.conflicts(t, 'x')), ('duplicates(None)', 1, lambda t: etl.duplicates(t)),
         ('isunique', 1, lambda t: [[etl.isunique(t, 'x'), etl.isunique(t, 'xy')]]), ('duplicates(compound)', 1, lambda t: etl.duplicates(t, ('x', 'xy'))),
-    ], 320 if ctx.thorough() else 80)
+    ], 600 if ctx.thorough() else 240)
     # ---- the partition survives a sort that spills into more than a thousand chunk files
     for n, bs in (((1100, 1), (2300, 2)) if ctx.thorough() else ((1100, 1),)):
         rows = [[(rng.choice([1, 2, 3, 'a', None]) if i % 5 else 'once-%d' % i), i] for i in range(n)]
@@ -194,6 +194,18 @@ def run(ctx):
         if not ok:
             ctx.spec_fail('duplicates|many-chunks', 'duplicates / unique / distinct over a sort of %d rows in chunks of %d do not partition the rows by key multiplicity' % (n, bs),
                           {'nrows': n, 'buffersize': bs, 'table': 'rows [key, i]: every fifth key occurs once, the others are drawn from [1, 2, 3, "a", None]'})
+
+    # ---- conflicts: the names of the fields that are not the key do not matter, not even when one repeats the key's name
+    for ci in range(120 if ctx.thorough() else 40):
+        rows = [[rng.choice([1, 2]), rng.choice(['p', 'q']), rng.choice([0, 1, None])] for _ in range(rng.choice([2, 3, 5]))]
+        for hdr_dup, hdr_uni, key in ((['a', 'b', 'a'], ['a', 'b', 'c'], 'a'), (['k', 'k', 'v'], ['k', 'w', 'v'], 'k'), (['a', 'b', 'a'], ['a', 'b', 'c'], 0)):
+            a = list(etl.conflicts([hdr_dup] + rows, key))[1:]
+            b = list(etl.conflicts([hdr_uni] + rows, key))[1:]
+            ctx.case(('conflicts-repeated-name', repr(rows), repr(hdr_dup), repr(key)))
+            ctx.count('conflicts:repeated-field-name')
+            if a != b:
+                ctx.spec_fail('conflicts|repeated-field-name', 'conflicts over a header that repeats the key field\'s name reports other rows than over distinct names',
+                              {'rows': repr(rows), 'header': repr(hdr_dup), 'key': repr(key), 'reported': repr(a), 'with distinct names': repr(b)})
 
     # ---- a key given as a negative position names the same field as its name does
     for ci in range(120 if ctx.thorough() else 40):
